@@ -6,7 +6,10 @@
 //!   on the RRSIG RR, on the signed octets (independent RFC 4034 §3.1.8.1
 //!   construction + independent `ring::signature` verification), library
 //!   validation after legitimate resolver transformations, and failure of
-//!   validation after every single alteration.
+//!   validation after every single alteration. One case in eight with >= 2
+//!   records gives the records differing TTLs: the signer may refuse (the
+//!   documented panic / MultipleTtlValues), but an RRSIG it returns must
+//!   pass all of the above with the Original TTL it chose.
 //! * `keytag-ds`: generated DNSKEY RDATA → `Dnskey::key_tag`,
 //!   `DnskeyExt::digest` against the reference computations.
 //! * `zone-history`: a generated zone is put into one `SortedRecords` by a
@@ -196,6 +199,9 @@ struct Case {
     exp: u32,
     route: Route,
     parsed_input: bool,
+    /// the records of the RRset carry differing TTLs (a sloppy zone file,
+    /// records merged from two sources); seed of the TTL pattern
+    mixed_ttl: Option<u64>,
     /// which resolver-side transformations to apply (bit mask)
     tmask: u8,
     /// kinds of the alterations to try afterwards
@@ -429,12 +435,70 @@ fn decode_case(u: &mut Unstructured, thorough: bool) -> Case {
             }
         }
     }
-    Case { key_idx, custom_flags, signer, owner, owner_kind, rtype, class, ttl, rdatas, inc, exp, route, parsed_input, tmask, alts, tseed }
+    // one case in eight with >= 2 records gives them differing TTLs; derived
+    // from the detail seed (no extra input octets: earlier replay files decode
+    // as before, an exhausted input gives the plain case)
+    let mseed = sub(MIXED_TTL_SALT);
+    let mixed_ttl = if mseed % 8 == 1 && rdatas.len() >= 2 && rtype != rr::RRSIG { Some(mseed >> 3) } else { None };
+    Case { key_idx, custom_flags, signer, owner, owner_kind, rtype, class, ttl, rdatas, inc, exp, route, parsed_input, mixed_ttl, tmask, alts, tseed }
+}
+
+const MIXED_TTL_SALT: u64 = 2000;
+
+/// TTLs for the records of an RRset such that at least two differ.
+fn mixed_ttls(seed: u64, base_ttl: u32, n: usize) -> Vec<u32> {
+    let b = expand(seed | 1, 64 + 8 * n);
+    let mut u = Unstructured::new(&b);
+    let u = &mut u;
+    let other = |u: &mut Unstructured, t: u32| -> u32 {
+        let o = match pick(u, 6) {
+            0 => t.wrapping_add(1),
+            1 => t.wrapping_sub(1),
+            2 => [0u32, 1, 60, 300, 3600, 86400, 0x7fff_ffff, 0x8000_0000, 0xffff_ffff][pick(u, 9)],
+            3 => t / 2,
+            4 => t ^ (1 << pick(u, 32)),
+            _ => gm::ttl(u),
+        };
+        if o == t { t ^ 1 } else { o }
+    };
+    let mut out = vec![base_ttl; n];
+    match pick(u, 5) {
+        0 => {
+            // the first record (whose TTL Rrset::ttl() reports) is the odd one
+            out[0] = other(u, base_ttl);
+        }
+        1 => {
+            let t = other(u, base_ttl);
+            out[n - 1] = t;
+        }
+        2 => {
+            let i = pick(u, n);
+            out[i] = other(u, base_ttl);
+        }
+        3 => {
+            // two sources merged: a run of records with one TTL, the rest
+            // with another
+            let k = 1 + pick(u, n - 1);
+            let t = other(u, base_ttl);
+            for x in out.iter_mut().skip(k) {
+                *x = t;
+            }
+        }
+        _ => {
+            for x in out.iter_mut() {
+                *x = gm::ttl(u);
+            }
+            if out.iter().all(|t| *t == out[0]) {
+                out[n - 1] = out[0] ^ 1;
+            }
+        }
+    }
+    out
 }
 
 fn show_case(c: &Case) -> String {
     format!(
-        "key={} flags={:?} signer={} owner={} ({}) {} class={} ttl={} n={} inc={} exp={} route={:?} parsed_input={} tmask={:#010b} alts={:?}",
+        "key={} flags={:?} signer={} owner={} ({}) {} class={} ttl={} n={} inc={} exp={} route={:?} parsed_input={} mixed_ttl={:?} tmask={:#010b} alts={:?}",
         keys::FIXTURES[c.key_idx].name,
         c.custom_flags,
         gn::show(&c.signer),
@@ -448,6 +512,7 @@ fn show_case(c: &Case) -> String {
         c.exp,
         c.route,
         c.parsed_input,
+        c.mixed_ttl,
         c.tmask,
         c.alts
     )
@@ -648,6 +713,15 @@ fn run_sign(data: &[u8], ctx: &mut Ctx) -> CaseResult {
         ctx.class("empty-after-dedup");
         return Ok(());
     }
+    // a sloppy zone: the records of the RRset carry differing TTLs
+    if let Some(ms) = c.mixed_ttl {
+        if base.len() >= 2 {
+            for (r, t) in base.iter_mut().zip(mixed_ttls(ms, c.ttl, c.rdatas.len())) {
+                r.ttl = t;
+            }
+        }
+    }
+    let mixed = base.iter().any(|r| r.ttl != base[0].ttl);
     // owner case may differ between the records of an RRset
     if chance(u, 50) {
         for r in base.iter_mut().skip(1) {
@@ -716,13 +790,13 @@ fn run_sign(data: &[u8], ctx: &mut Ctx) -> CaseResult {
     // --- sign
     let mut scratch: Vec<u8> = (0..pick(u, 40)).map(|_| byte(u)).collect();
     let flat = flatten(&parsed.recs);
-    let result: Result<Option<SigOut>, SigningError> = match c.route {
+    let signing = |scratch: &mut Vec<u8>| -> Result<Result<Option<SigOut>, SigningError>, Violation> { Ok(match c.route {
         Route::SignRrset | Route::SortedIn => {
             let si = c.route == Route::SortedIn;
             if c.parsed_input {
-                sign_direct!(parsed.recs.clone(), &skey, &dnskey, inc, exp, si, &mut scratch).map(Some)
+                sign_direct!(parsed.recs.clone(), &skey, &dnskey, inc, exp, si, scratch).map(Some)
             } else {
-                sign_direct!(flat.clone(), &skey, &dnskey, inc, exp, si, &mut scratch).map(Some)
+                sign_direct!(flat.clone(), &skey, &dnskey, inc, exp, si, scratch).map(Some)
             }
         }
         Route::SortedRecords => {
@@ -733,7 +807,7 @@ fn run_sign(data: &[u8], ctx: &mut Ctx) -> CaseResult {
             vensure!(set.len() <= distinct.len(), "sortedrecords:duplicates-kept", "{} distinct records (canonical form) given {} times, SortedRecords keeps {}", distinct.len(), base.len(), set.len());
             vensure!(set.len() == distinct.len(), "sortedrecords:distinct-record-dropped", "{} distinct records, SortedRecords keeps {}", distinct.len(), set.len());
             let recs: Vec<RecF> = set.iter().cloned().collect();
-            sign_direct!(recs, &skey, &dnskey, inc, exp, true, &mut scratch).map(Some)
+            sign_direct!(recs, &skey, &dnskey, inc, exp, true, scratch).map(Some)
         }
         Route::Zone => {
             let sr: SortedRecords<NB, ZoneRecordData<Bytes, NB>> = SortedRecords::from(flat.clone());
@@ -772,6 +846,41 @@ fn run_sign(data: &[u8], ctx: &mut Ctx) -> CaseResult {
                 }
             }
         }
+    }) };
+    // An RRset whose records carry differing TTLs is not a valid RRset
+    // (RFC 2181 5.2). The library's documented reaction (Changelog 0.12.1,
+    // SigningError::MultipleTtlValues, the comments in Rrset::new*): the
+    // attempt is detected and "the code currently panics. At least this
+    // prevents bad signatures". The signer may therefore refuse (that panic,
+    // or the designated error); but when a signing entry point returns an
+    // RRSIG it must be a good one: everything below applies, with the
+    // Original TTL the signer chose.
+    let result: Result<Option<SigOut>, SigningError> = if mixed {
+        ctx.class("mixed-ttl:given");
+        ctx.class(format!("mixed-ttl:route:{:?}", c.route));
+        if base[0].ttl != c.ttl {
+            ctx.class("mixed-ttl:first-record-differs");
+        }
+        match guarded("signing an RRset with differing TTLs", || signing(&mut scratch)) {
+            Ok(r) => match r? {
+                Err(SigningError::MultipleTtlValues) => {
+                    ctx.class("mixed-ttl:refused-with-error");
+                    ctx.nontrivial(&case);
+                    return Ok(());
+                }
+                other => other,
+            },
+            Err(v) => {
+                if v.sig.contains("TTLs should be the same") {
+                    ctx.class("mixed-ttl:refused-with-documented-panic");
+                    ctx.nontrivial(&case);
+                    return Ok(());
+                }
+                return Err(v);
+            }
+        }
+    } else {
+        signing(&mut scratch)?
     };
 
     // --- refusals
@@ -813,10 +922,19 @@ fn run_sign(data: &[u8], ctx: &mut Ctx) -> CaseResult {
     }
 
     // --- the RRSIG RR (RFC 4035 §2.2, RFC 4034 §3.1)
-    let want = rf::SigFields { type_covered: c.rtype, alg: ck.alg, labels: rf::rrsig_labels(&c.owner), orig_ttl: c.ttl, exp: c.exp, inc: c.inc, key_tag: want_tag, signer: c.signer.clone() };
+    // the TTL of the RRset: the one TTL all records have; for an RRset with
+    // differing TTLs that the signer did not refuse, the value it put into
+    // the Original TTL field (which one it picks is its business; RFC 2181
+    // 5.2 leaves no valid choice) - signature, RRSIG RR and validation must
+    // then be consistent with that value
+    let rrset_ttl = if mixed { so.f.orig_ttl } else { c.ttl };
+    if mixed {
+        ctx.class("mixed-ttl:signed");
+    }
+    let want = rf::SigFields { type_covered: c.rtype, alg: ck.alg, labels: rf::rrsig_labels(&c.owner), orig_ttl: rrset_ttl, exp: c.exp, inc: c.inc, key_tag: want_tag, signer: c.signer.clone() };
     vensure!(gn::lower(&so.owner) == gn::lower(&c.owner), "rrsig:owner", "RRSIG owner {} for RRset owner {}", gn::show(&so.owner), gn::show(&c.owner));
     vensure!(so.class == c.class, "rrsig:class", "RRSIG class {} for RRset class {}", so.class, c.class);
-    vensure!(so.ttl == c.ttl, "rrsig:ttl", "RRSIG TTL {} for RRset TTL {}", so.ttl, c.ttl);
+    vensure!(so.ttl == rrset_ttl, "rrsig:ttl", "RRSIG TTL {} for RRset TTL {}{}", so.ttl, rrset_ttl, if mixed { " (= Original TTL field; records had differing TTLs)" } else { "" });
     vensure!(so.f.type_covered == want.type_covered, "rrsig:type-covered", "{} want {}", so.f.type_covered, want.type_covered);
     vensure!(so.f.alg == want.alg, "rrsig:algorithm", "{} want {}", so.f.alg, want.alg);
     vensure!(so.f.labels == want.labels, "rrsig:labels", "labels field {} for owner {} (RFC 4034 3.1.3: {})", so.f.labels, gn::show(&c.owner), want.labels);
@@ -834,6 +952,14 @@ fn run_sign(data: &[u8], ctx: &mut Ctx) -> CaseResult {
     };
     match rf::verify(ck.alg, &ck.pubkey, &ref_sd, &so.sig) {
         Ok(true) => {}
+        Ok(false) if mixed => vfail!(
+            "sign:mixed-ttl-rrset-signed-but-not-over-rfc4034-octets",
+            "records with TTLs {:?} were accepted ({:?}) and an RRSIG with Original TTL {} was returned, but its signature does not verify (ring, raw key) over the RFC 4034 3.1.8.1 octets (every RR with the Original TTL); library's own reconstruction {} the reference",
+            distinct.iter().map(|r| r.ttl).collect::<Vec<_>>(),
+            c.route,
+            so.f.orig_ttl,
+            if so.identity_buf == ref_sd { "equals" } else { "differs from" }
+        ),
         Ok(false) => vfail!(format!("sign:signature-not-over-rfc4034-octets:{}", rr::mnemonic(c.rtype)), "the signature does not verify (ring, raw key) over the RFC 4034 3.1.8.1 octets; library's own reconstruction {} the reference\n  reference: {}\n  library:   {}", if so.identity_buf == ref_sd { "equals" } else { "differs from" }, hexs(&ref_sd), hexs(&so.identity_buf)),
         Err(e) => vfail!("selfcheck:reference-verify", "{e}"),
     }
@@ -877,8 +1003,8 @@ fn run_sign(data: &[u8], ctx: &mut Ctx) -> CaseResult {
         for r in recv.iter_mut() {
             r.ttl = if same { t0 } else { gm::ttl(u) };
         }
-        if recv.iter().any(|r| r.ttl != c.ttl) {
-            applied.push(if recv.iter().any(|r| r.ttl > c.ttl) { "ttl-raised" } else { "ttl-decremented" });
+        if recv.iter().any(|r| r.ttl != rrset_ttl) {
+            applied.push(if recv.iter().any(|r| r.ttl > rrset_ttl) { "ttl-raised" } else { "ttl-decremented" });
         }
     }
     let mut sig_owner = c.owner.clone();
@@ -1591,6 +1717,13 @@ fn health(c: &BTreeMap<String, u64>, thorough: bool) -> Result<(), String> {
     ] {
         need(k, 100 * s)?;
     }
+    // RRsets with differing TTLs reach every signing route and are judged
+    // (refused as documented, or signed and then checked like any other)
+    need("mixed-ttl:given", 1000 * s)?;
+    need("mixed-ttl:first-record-differs", 200 * s)?;
+    for r in ["SignRrset", "SortedIn", "SortedRecords", "Zone"] {
+        need(&format!("mixed-ttl:route:{r}"), 100 * s)?;
+    }
     for t in ["reorder", "owner-case", "embedded-name-case", "ttl-decremented", "ttl-raised", "wildcard-expansion", "name-compression", "signer-name-case"] {
         need(&format!("t:{t}"), 100 * s)?;
     }
@@ -1615,12 +1748,13 @@ fn health(c: &BTreeMap<String, u64>, thorough: bool) -> Result<(), String> {
 pub fn prop() -> Option<Prop> {
     Some(Prop {
         id: "C12",
-        rule: "sign-verify: a generated RRset (owner shape, type over all zone types + unknown codes, class, TTL, 1..8 records pairwise different as DNS data, validity period, key/algorithm, signer route) is non-trivial iff it has >= 2 records or a wildcard owner or an upper-case letter in an embedded name that RFC 6840 5.1 lists, AND at least one resolver-side transformation was really applied (the received RRset differs from the signed one); distinct by (decoded case, transformation mask). keytag-ds cases are distinct by (flags, protocol, algorithm, key, owner). zone-history: a generated zone (1..4 owners incl. wildcard, delegation, glue and out-of-zone names; 1..3 types each; 1..4 records each plus case variants) put into one SortedRecords by a history of 1..4 batches (From<Vec>/from_iter/new, extend, sorted_extend, insert, remove_all/first) is non-trivial iff at least one adding step met a non-empty container and at least 2 records remain. rsa-key-field: non-trivial iff exponent and modulus are within the RFC 3110 limits (1..=512 octets, no leading zero).",
+        rule: "sign-verify: a generated RRset (owner shape, type over all zone types + unknown codes, class, TTL - one for the RRset or differing between its records -, 1..8 records pairwise different as DNS data, validity period, key/algorithm, signer route) is non-trivial iff it has >= 2 records or a wildcard owner or an upper-case letter in an embedded name that RFC 6840 5.1 lists, AND at least one resolver-side transformation was really applied (the received RRset differs from the signed one), or iff its records carry differing TTLs and the signer's reaction (documented refusal, or an RRSIG that is then checked) was judged; distinct by (decoded case, transformation mask). keytag-ds cases are distinct by (flags, protocol, algorithm, key, owner). zone-history: a generated zone (1..4 owners incl. wildcard, delegation, glue and out-of-zone names; 1..3 types each; 1..4 records each plus case variants) put into one SortedRecords by a history of 1..4 batches (From<Vec>/from_iter/new, extend, sorted_extend, insert, remove_all/first) is non-trivial iff at least one adding step met a non-empty container and at least 2 records remain. rsa-key-field: non-trivial iff exponent and modulus are within the RFC 3110 limits (1..=512 octets, no leading zero).",
         assumptions: &[
             "trusted: ring::digest and ring::signature primitives (shared with the library's ring backend); the reference builds the signed octets, parses the public key field and calls ring itself",
             "fixture keys from /repo/test-data/dnssec-keys (one key per algorithm) plus three RSA keys made with openssl for the other sizes ring signs with (3072 bit with a 33-bit exponent, 4096 bit for RSASHA256 and for RSASHA512); ECDSA signatures use ring's SystemRandom, the verdicts do not depend on the random nonce",
             "an RRset handed to the signer has no two records that are equal as DNS data (RFC 2181 5: that is not an RRset; names compared case-insensitively, also where the DNSSEC canonical form keeps the case); duplicates (exact, or differing in the case of owner / RFC 6840 5.1 names) are only given to SortedRecords, which removes them",
-            "sign_sorted_rrset_in gets its records in RFC 4034 6.3 order (documented precondition), one TTL per RRset (Rrset::new panics otherwise, documented)",
+            "sign_sorted_rrset_in gets its records in RFC 4034 6.3 order (documented precondition)",
+            "an RRset whose records carry differing TTLs (one case in eight with >= 2 records, all four routes) may be refused - Rrset::new* panics with 'TTLs should be the same' (Changelog 0.12.1: 'currently panics. At least this prevents bad signatures') or SigningError::MultipleTtlValues - but an RRSIG that is returned for it must pass every check with the Original TTL the signer chose",
             "records are built by the library's message parser from generated wire data; RDATA the parser refuses is out of scope here (C05)",
         ],
         subchecks: vec![
